@@ -69,26 +69,32 @@ type loopCtx struct {
 }
 
 type tr struct {
-	w         *World
-	u         *Unit
-	reg       map[string]*Unit
-	aux       []string
-	nloop     int
-	nvar      int
-	fail      string
-	loop      *loopCtx
-	used      map[string]bool // lean names in use
-	notes     []string
-	pre       []string        // effect recordings to be emitted before the statement being translated
-	noLit     map[string]bool // Go variables carried by a loop: never bound to a literal
-	commaOk   bool            // translating the right-hand side of `v, ok := m[k]`
-	closure   *closureCtx     // translating the body of a function literal
-	nclos     int
-	mapVal    *mapValBind // value variable of a map range being rewritten to a key-list range
-	depth     int         // nesting of on-demand helper translation
-	recvName  string      // the receiver's name in the source (call-table keys are written with `k`)
-	inWalk    bool        // translating the body of a Walk closure (it does not touch the store)
-	extraFree []string    // identifiers of the ranged map expression (free in the rewritten loop)
+	w           *World
+	u           *Unit
+	reg         map[string]*Unit
+	aux         []string
+	nloop       int
+	nvar        int
+	fail        string
+	loop        *loopCtx
+	used        map[string]bool // lean names in use
+	notes       []string
+	pre         []string        // effect recordings to be emitted before the statement being translated
+	noLit       map[string]bool // Go variables carried by a loop: never bound to a literal
+	commaOk     bool            // translating the right-hand side of `v, ok := m[k]`
+	closure     *closureCtx     // translating the body of a function literal
+	nclos       int
+	mapVal      *mapValBind            // value variable of a map range being rewritten to a key-list range
+	depth       int                    // nesting of on-demand helper translation
+	recvName    string                 // the receiver's name in the source (call-table keys are written with `k`)
+	inWalk      bool                   // translating the body of a Walk closure (it does not touch the store)
+	indexAlias  map[string]string      // "xs[i]" -> the element variable of the enclosing index loop over xs
+	lenOf       map[string]ast.Expr    // Go variable bound by `n := len(xs)` -> xs
+	mapRangeIdx map[*ast.BlockStmt]int // map-range loops (by body) in order of first translation = source order
+	lambda      string                 // the translated function as a lambda term (for helpers inlined at their call sites)
+	mutated     map[string]bool        // Lean names of PARAMETERS the function writes through
+	paramLeanOf map[string]string      // Go parameter name -> Lean name it is bound to (aliases share one)
+	extraFree   []string               // identifiers of the ranged map expression (free in the rewritten loop)
 }
 
 type closureCtx struct {
@@ -261,6 +267,11 @@ func (t *tr) expr(e ast.Expr, en env) V {
 	case *ast.BinaryExpr:
 		return t.binary(e, en)
 	case *ast.IndexExpr:
+		if a, ok := t.indexAlias[t.w.render(e)]; ok {
+			if _, bound := en.m[a]; bound {
+				return t.expr(&ast.Ident{Name: a}, en) // `xs[i]` inside `for i := range xs`: the element
+			}
+		}
 		x := t.expr(e.X, en)
 		i := t.expr(e.Index, en)
 		if strings.HasPrefix(x.T, "List ") {
@@ -507,6 +518,14 @@ func (t *tr) call(e *ast.CallExpr, en env) V {
 	if callee == "sdk.UnwrapSDKContext" {
 		return V{"()", "SdkCtx"}
 	}
+	if callee == "collections.Join" && len(e.Args) == 2 {
+		// a store key built as a value (`key := collections.Join(a, b)`): a pair
+		a, b := t.expr(e.Args[0], en), t.expr(e.Args[1], en)
+		if strings.ContainsAny(a.T+b.T, "() ") {
+			return t.bad("pair key of %s and %s", a.T, b.T)
+		}
+		return V{"(" + a.L + ", " + b.L + ")", "(" + a.T + " × " + b.T + ")"}
+	}
 	if callee == "query.CollectionFilteredPaginate" || callee == "query.CollectionPaginate" {
 		return t.paginate(e, callee == "query.CollectionFilteredPaginate", en)
 	}
@@ -539,13 +558,7 @@ func (t *tr) call(e *ast.CallExpr, en env) V {
 		var av []V
 		var add func(a ast.Expr)
 		add = func(a ast.Expr) {
-			if c, ok := a.(*ast.CallExpr); ok && t.w.render(c.Fun) == "collections.Join" {
-				for _, x := range c.Args {
-					add(x)
-				}
-				return
-			}
-			av = append(av, t.expr(a, en))
+			av = append(av, t.keyParts(a, en)...)
 		}
 		for _, i := range cs.Args {
 			if i < len(e.Args) {
@@ -583,16 +596,11 @@ func (t *tr) call(e *ast.CallExpr, en env) V {
 				if strings.Contains(v.L, ph) {
 					// a keyed read: the oracle is a FUNCTION of the key the code passes;
 					// `collections.Join(a, b)` supplies two arguments
-					if c, ok := a.(*ast.CallExpr); ok && t.w.render(c.Fun) == "collections.Join" {
-						var parts []string
-						for _, x := range c.Args {
-							parts = append(parts, atom(t.expr(x, en).L))
-						}
-						v.L = strings.ReplaceAll(v.L, ph, strings.Join(parts, " "))
-						continue
+					var parts []string
+					for _, x := range t.keyParts(a, en) {
+						parts = append(parts, atom(x.L))
 					}
-					av := t.expr(a, en)
-					v.L = strings.ReplaceAll(v.L, ph, atom(av.L))
+					v.L = strings.ReplaceAll(v.L, ph, strings.Join(parts, " "))
 				}
 			}
 		}
@@ -758,6 +766,33 @@ func (t *tr) unitCall(u *Unit, recv *V, args []ast.Expr, en env) V {
 		i++
 	}
 	callL := "(" + u.Name + " " + strings.Join(parts, " ") + ")"
+	if u.Inline != "" {
+		callL = "(" + u.Inline + " " + strings.Join(parts, " ") + ")"
+		k, si := 0, 0 // k: index among the value parameters; si: index among receiver + arguments
+		for _, p := range u.Params {
+			if p.Oracle {
+				continue
+			}
+			if p.T == "" || p.T == "Keeper" {
+				si++
+				continue
+			}
+			if k < len(u.Mutates) && u.Mutates[k] && si < len(srcs) && srcs[si].e != nil {
+				if id, ok := srcs[si].e.(*ast.Ident); ok {
+					if ov, ok := en.m[id.Name]; ok {
+						for n, v := range en.m { // every caller-side name of that object
+							if v.lean == ov.lean {
+								en.m[n] = evar{"POISON_" + n, "Poison", v.depth}
+							}
+						}
+						t.notes = append(t.notes, "helper "+u.Func+" writes through its parameter "+p.Go+": "+id.Name+" is not usable after the call")
+					}
+				}
+			}
+			k++
+			si++
+		}
+	}
 	if u.EffectsOn {
 		// the callee returns its own effect list as the last component: splice it into ours
 		ev, ok := en.m["effs__"]
@@ -1150,6 +1185,40 @@ func (t *tr) stmts(list []ast.Stmt, en env, k cont) string {
 		thenS := t.stmts(s.Body.List, en2.deeper(), after)
 		return pre + "if " + c.L + " then\n" + indent(thenS) + "\nelse\n" + indent(elseS)
 	case *ast.SwitchStmt:
+		if s.Init == nil && s.Tag == nil {
+			// a tagless switch is an if / else-if chain: translate it AS that chain, so that the two
+			// spellings of the same decision give the same term
+			var chain ast.Stmt
+			var deflt *ast.BlockStmt
+			var clauses []*ast.CaseClause
+			for _, cs := range s.Body.List {
+				cc := cs.(*ast.CaseClause)
+				for _, st := range cc.Body {
+					if b, ok := st.(*ast.BranchStmt); ok && (b.Tok == token.FALLTHROUGH || b.Tok == token.BREAK) {
+						return t.failf("switch with %s", b.Tok)
+					}
+				}
+				if cc.List == nil {
+					deflt = &ast.BlockStmt{List: cc.Body}
+					continue
+				}
+				clauses = append(clauses, cc)
+			}
+			if len(clauses) == 0 {
+				return t.failf("switch form")
+			}
+			if deflt != nil {
+				chain = deflt
+			}
+			for i := len(clauses) - 1; i >= 0; i-- {
+				cond := clauses[i].List[0]
+				for _, e := range clauses[i].List[1:] {
+					cond = &ast.BinaryExpr{X: cond, Op: token.LOR, Y: e}
+				}
+				chain = &ast.IfStmt{Cond: cond, Body: &ast.BlockStmt{List: clauses[i].Body}, Else: chain}
+			}
+			return t.stmts(append([]ast.Stmt{chain}, rest...), en, k)
+		}
 		if s.Init != nil || s.Tag == nil {
 			return t.failf("switch form")
 		}
@@ -1213,6 +1282,13 @@ func (t *tr) stmts(list []ast.Stmt, en env, k cont) string {
 		return t.failf("branch %s", s.Tok)
 	case *ast.RangeStmt:
 		return t.rangeLoop(s, en, next)
+	case *ast.ForStmt:
+		// `for i := 0; i < len(xs); i++ { … xs[i] … }` (or `i < n` with `n := len(xs)`) is the
+		// index loop `for i := range xs`
+		if rs := t.indexFor(s); rs != nil {
+			return t.rangeLoop(rs, en, next)
+		}
+		return t.failf("for statement that is not an index loop over a slice")
 	}
 	return t.failf("statement %T", s)
 }
@@ -1260,12 +1336,30 @@ func (t *tr) mutate(call *ast.CallExpr, en env) (string, env, bool) {
 		return "", en, true
 	}
 	upd := strings.ReplaceAll(strings.ReplaceAll(m.L, "%1", bv.lean), "%2", v.L)
+	if bv.depth == 0 {
+		if t.mutated == nil {
+			t.mutated = map[string]bool{}
+		}
+		t.mutated[bv.lean] = true // a parameter is written through (a pointer / interface value in Go)
+	}
 	return fmt.Sprintf("let %s : %s := %s\n", bv.lean, leanType(bv.t), upd), en, true
 }
 
 func (t *tr) assign0(s *ast.AssignStmt, en env) (string, env) {
 	if s.Tok != token.DEFINE && s.Tok != token.ASSIGN {
 		return t.failf("assignment operator %s", s.Tok), en
+	}
+	if len(s.Lhs) == 1 && len(s.Rhs) == 1 {
+		// remember `n := len(xs)` (an index loop may be bounded by n); any other assignment to n forgets it
+		if n := identName(s.Lhs[0]); n != "" {
+			if t.lenOf == nil {
+				t.lenOf = map[string]ast.Expr{}
+			}
+			delete(t.lenOf, n)
+			if c, ok := s.Rhs[0].(*ast.CallExpr); ok && identName(c.Fun) == "len" && len(c.Args) == 1 && s.Tok == token.DEFINE {
+				t.lenOf[n] = c.Args[0]
+			}
+		}
 	}
 	en = en.copy()
 	// `x := y.(*T)` / `x, ok := y.(*T)`: x is another name for the object y points to
@@ -1662,6 +1756,55 @@ func (t *tr) rangeLoop(s *ast.RangeStmt, en env, next cont) string {
 		return t.mapRange(s, keys, en, next)
 	}
 	xs := t.expr(s.X, en)
+	if strings.HasPrefix(xs.T, "Map ") && len(t.u.MapKeyOrder) > 0 {
+		// a range over a Go map that the unit table does not know by NAME (a renamed variable):
+		// the key-order oracles are given by position, in source order of the map ranges
+		if t.mapRangeIdx == nil {
+			t.mapRangeIdx = map[*ast.BlockStmt]int{}
+		}
+		idx, seen := t.mapRangeIdx[s.Body]
+		if !seen {
+			idx = len(t.mapRangeIdx)
+			t.mapRangeIdx[s.Body] = idx
+		}
+		if idx < len(t.u.MapKeyOrder) {
+			return t.mapRange(s, t.u.MapKeyOrder[idx], en, next)
+		}
+	}
+	if s.Value == nil && s.Key != nil && identName(s.Key) != "_" && identName(s.Key) != "" {
+		// `for i := range xs { … xs[i] … }` is `for i, x := range xs { … x … }`
+		if strings.HasPrefix(xs.T, "List ") || strings.HasPrefix(xs.T, "Option List ") {
+			i := identName(s.Key)
+			elem := i + "__elem"
+			if t.indexAlias == nil {
+				t.indexAlias = map[string]string{}
+			}
+			t.indexAlias[t.w.render(s.X)+"["+i+"]"] = elem
+			// an index that is used for nothing but `xs[i]` is not carried by the translated loop
+			var key ast.Expr = &ast.Ident{Name: "_"}
+			xr := t.w.render(s.X)
+			var uses func(n ast.Node) bool
+			used := false
+			uses = func(n ast.Node) bool {
+				switch e := n.(type) {
+				case *ast.IndexExpr:
+					if t.w.render(e.X) == xr && identName(e.Index) == i {
+						return false
+					}
+				case *ast.Ident:
+					if e.Name == i {
+						used = true
+					}
+				}
+				return true
+			}
+			ast.Inspect(s.Body, uses)
+			if used {
+				key = s.Key
+			}
+			s = &ast.RangeStmt{Key: key, Value: &ast.Ident{Name: elem}, Tok: token.DEFINE, X: s.X, Body: s.Body}
+		}
+	}
 	if strings.HasPrefix(xs.T, "Option List ") {
 		xs = V{"((" + xs.L + ").getD [])", strings.TrimPrefix(xs.T, "Option ")} // ranging over a missing map entry = nil slice
 	}
@@ -2152,7 +2295,17 @@ func (t *tr) autoUnit(recvName, fname string, args []ast.Expr, en env) *Unit {
 				if sub.fail != "" {
 					return nil
 				}
-				u.Params = append(u.Params, gparam{Go: names[i], T: v.T})
+				gp := gparam{Go: names[i], T: v.T}
+				if id, ok := args[i].(*ast.Ident); ok {
+					// the same object passed twice (under two names of the caller)?
+					for j := 0; j < i; j++ {
+						if jd, ok := args[j].(*ast.Ident); ok && en.m[jd.Name].lean == en.m[id.Name].lean && en.m[jd.Name].t == v.T && en.m[id.Name].lean != "" {
+							gp.AliasOf = names[j]
+							break
+						}
+					}
+				}
+				u.Params = append(u.Params, gp)
 			}
 			i++
 		}
@@ -2190,7 +2343,20 @@ func (t *tr) autoUnit(recvName, fname string, args []ast.Expr, en env) *Unit {
 	if sub.fail != "" {
 		return nil
 	}
-	t.aux = append(t.aux, "-- helper translated on demand (not in the unit table); unfolded by simp and grind\n"+strings.Replace(text, "\ndef ", "\n@[simp, grind] def ", 1))
+	// a helper that is not in the unit table is INLINED at its call sites (as a β-redex): the
+	// translation of `f(); g()` and of `h()` with `func h() { f(); g() }` are the same term up to β,
+	// so extracting or inlining a helper in the Go source does not disturb the tie theorems
+	t.aux = append(t.aux, "-- helper translated on demand (not in the unit table); inlined at its call sites\n"+strings.Replace(text, "\ndef ", "\n@[simp, grind] def ", 1))
+	u.Inline = sub.lambda
+	// a helper that writes through a pointer parameter changes the CALLER's object; the inlined
+	// value-level translation cannot carry that back, so the caller's variable is unusable
+	// after the call (poisoned: harmless when, as in a tail call, nothing reads it again)
+	for _, p := range u.Params {
+		if p.T == "" || p.T == "Keeper" || p.Oracle {
+			continue
+		}
+		u.Mutates = append(u.Mutates, sub.mutated[sub.paramLeanOf[p.Go]])
+	}
 	t.notes = append(t.notes, "helper "+fname+" translated on demand")
 	t.reg[key] = u
 	return u
@@ -2205,19 +2371,14 @@ func (t *tr) recordEffect(name string, idx []int, call *ast.CallExpr, en env) st
 	var args []string
 	var add func(a ast.Expr)
 	add = func(a ast.Expr) {
-		if c, ok := a.(*ast.CallExpr); ok && t.w.render(c.Fun) == "collections.Join" {
-			for _, x := range c.Args {
-				add(x)
+		for _, v := range t.keyParts(a, en) {
+			r, ok := renderers[v.T]
+			if !ok {
+				t.failf("effect %s: no renderer for %s", name, v.T)
+				return
 			}
-			return
+			args = append(args, strings.ReplaceAll(r, "%s", v.L))
 		}
-		v := t.expr(a, en)
-		r, ok := renderers[v.T]
-		if !ok {
-			t.failf("effect %s: no renderer for %s", name, v.T)
-			return
-		}
-		args = append(args, strings.ReplaceAll(r, "%s", v.L))
 	}
 	for _, i := range idx {
 		if i >= len(call.Args) {
@@ -2259,6 +2420,15 @@ func (t *tr) translate(fd funcDecl) (out string) {
 		ln := t.fresh(goName)
 		en.m[goName] = evar{ln, p.T, 0}
 		params = append(params, fmt.Sprintf("(%s : %s)", ln, leanType(p.T)))
+		if p.AliasOf != "" {
+			if ov, ok := en.m[p.AliasOf]; ok && ov.t == p.T {
+				en.m[goName] = ov // the parameter itself stays in the signature, unused
+			}
+		}
+		if t.paramLeanOf == nil {
+			t.paramLeanOf = map[string]string{}
+		}
+		t.paramLeanOf[goName] = en.m[goName].lean
 	}
 	var goParams []string
 	if fn.Recv != nil && len(fn.Recv.List) == 1 && len(fn.Recv.List[0].Names) == 1 {
@@ -2352,6 +2522,9 @@ func (t *tr) translate(fd funcDecl) (out string) {
 		b.WriteString("\n")
 	}
 	fmt.Fprintf(&b, "/-- %s -/\ndef %s %s : %s :=\n%s\n", src, t.u.Name, strings.Join(params, " "), leanType(t.fullRet()), indent(body))
+	if len(params) > 0 {
+		t.lambda = fmt.Sprintf("(fun %s => ((\n%s) : %s))", strings.Join(params, " "), indent(indent(body)), leanType(t.fullRet()))
+	}
 	return b.String()
 }
 
@@ -2565,4 +2738,87 @@ func (t *tr) paginate(e *ast.CallExpr, filtered bool, en env) V {
 		return V{"UNTRANSLATABLE", "?"}
 	}
 	return V{fmt.Sprintf("(Go.paginate %s %s %s)", list, pred, tr), "(List " + rT + " × Unit × Err)"}
+}
+
+// keyParts: the components of a store key.  `collections.Join(a, b)` written in place is its two
+// arguments; a key that was built earlier and bound to a variable (`key := collections.Join(a, b)`,
+// a pair value) is its two projections.
+func (t *tr) keyParts(a ast.Expr, en env) []V {
+	if c, ok := a.(*ast.CallExpr); ok && t.w.render(c.Fun) == "collections.Join" {
+		var out []V
+		for _, x := range c.Args {
+			out = append(out, t.keyParts(x, en)...)
+		}
+		return out
+	}
+	v := t.expr(a, en)
+	if x, y, ok := pairType(v.T); ok {
+		return []V{{atom(v.L) + ".1", x}, {atom(v.L) + ".2", y}}
+	}
+	return []V{v}
+}
+
+// pairType: "(X × Y)" with exactly two components
+func pairType(t LT) (LT, LT, bool) {
+	if !strings.HasPrefix(t, "(") || !strings.HasSuffix(t, ")") {
+		return "", "", false
+	}
+	parts := strings.Split(t[1:len(t)-1], " × ")
+	if len(parts) != 2 || strings.ContainsAny(parts[0]+parts[1], "()") {
+		return "", "", false
+	}
+	return parts[0], parts[1], true
+}
+
+// indexFor recognises `for i := 0; i < len(xs); i++` / `for i := 0; i < n; i++` with `n := len(xs)`.
+func (t *tr) indexFor(s *ast.ForStmt) *ast.RangeStmt {
+	init, ok := s.Init.(*ast.AssignStmt)
+	if !ok || init.Tok != token.DEFINE || len(init.Lhs) != 1 || len(init.Rhs) != 1 {
+		return nil
+	}
+	i := identName(init.Lhs[0])
+	if bl, ok := init.Rhs[0].(*ast.BasicLit); !ok || bl.Value != "0" || i == "" {
+		return nil
+	}
+	post, ok := s.Post.(*ast.IncDecStmt)
+	if !ok || post.Tok != token.INC || identName(post.X) != i {
+		return nil
+	}
+	cond, ok := s.Cond.(*ast.BinaryExpr)
+	if !ok || cond.Op != token.LSS || identName(cond.X) != i {
+		return nil
+	}
+	var xs ast.Expr
+	switch y := cond.Y.(type) {
+	case *ast.CallExpr:
+		if identName(y.Fun) == "len" && len(y.Args) == 1 {
+			xs = y.Args[0]
+		}
+	case *ast.Ident:
+		xs = t.lenOf[y.Name]
+	}
+	if xs == nil {
+		return nil
+	}
+	// the loop variable must not be assigned in the body
+	bad := false
+	ast.Inspect(s.Body, func(n ast.Node) bool {
+		switch a := n.(type) {
+		case *ast.AssignStmt:
+			for _, l := range a.Lhs {
+				if identName(l) == i {
+					bad = true
+				}
+			}
+		case *ast.IncDecStmt:
+			if identName(a.X) == i {
+				bad = true
+			}
+		}
+		return true
+	})
+	if bad {
+		return nil
+	}
+	return &ast.RangeStmt{Key: &ast.Ident{Name: i}, Tok: token.DEFINE, X: xs, Body: s.Body}
 }
